@@ -1,3 +1,6 @@
+// TRUSTED: std
+pub assume_specification<'a, T: Copy> [Option::<&'a T>::copied] (o: Option<&'a T>) -> (r: Option<T>)
+    ensures r == (match o { Some(x) => Some(*x), None => None::<T> });
 // ================= transaction.rs: id types (generators are proved in unit txid) =================
 //@begin const src/transaction.rs - TRANSACTION_ID_BYTES
 pub const TRANSACTION_ID_BYTES: usize = ACTION_ID_BYTES + MESSAGE_ID_BYTES;
